@@ -1,7 +1,7 @@
 #!/usr/bin/env python3
 """False-alarm test: apply each behaviour-preserving change (<root>/<group>/<v>/patch.diff) in a
 scratch mirror and run the quick tier of the given checks (default: all claimed); every check
-must exit 0. usage: try_benign.py <root> [N=3] [--props C01,C02] [dir-with-patch.diff relative to root ...]   (VERIF_SEED is passed on)"""
+must exit 0 (except the checks listed in a change's expected_alarms.txt, which must exit 1). usage: try_benign.py <root> [N=3] [--props C01,C02] [dir-with-patch.diff relative to root ...]   (VERIF_SEED is passed on)"""
 import json, os, subprocess, sys, threading, queue
 root = sys.argv[1]; args = sys.argv[2:]
 N = 3; props = None; items = []
@@ -17,13 +17,14 @@ if not items:
 q = queue.Queue(); [q.put(x) for x in items]
 lock = threading.Lock(); alarms = []
 def worker(k):
-    name = f'bn{k}'
+    name = f'bn{os.getpid()}x{k}'
     while True:
         try: it = q.get_nowait()
         except queue.Empty: break
         r = subprocess.run(['python3', '/verif/tools/mirror_try.py', 'run', name, f'{root}/{it}/patch.diff'] + props, capture_output=True, text=True)
         lines = [l.strip() for l in r.stdout.splitlines()]
-        bad = [l for l in lines if 'exit=0' not in l]
+        exp = open(f'{root}/{it}/expected_alarms.txt').read().split() if os.path.isfile(f'{root}/{it}/expected_alarms.txt') else []
+        bad = [l for l in lines if ('exit=1' not in l if l.split(':')[0] in exp else 'exit=0' not in l)] or ([] if len(lines) == len(props) else ['harness: expected %d check results, got %d: %s' % (len(props), len(lines), r.stderr[-300:])])
         with lock:
             print(f"{it}: {'quiet' if not bad else 'ALARM'} ({len(lines)} checks)", flush=True)
             for l in bad: print('    ' + l[:400], flush=True)
